@@ -6,7 +6,7 @@
    cannot exhibit: it is sampled on every run by the c11 stream (every document loaded and run by the
    debug-build binary in a child process under a wall-clock limit). *)
 From Coq Require Import List NArith ZArith Bool Arith.
-From AG Require Import Base.Val Base.Sort Str.MetaVar Str.AnB Str.AnBProofs Str.Substring Str.SubstringProofs
+From AG Require Import Base.Val Base.Sort Str.MetaVar Str.AnB Str.AnBProofs Str.Substring Str.SubstringProofs Str.Case Str.CaseProofs
   Tree.Tree Match.MatchNode Rule.Rule Rule.Kinds Rule.Eval Rewrite.Template
   Front.Load Front.LoadSpec Front.LoadProofs Match.FuelProofs Rule.TermProofs.
 Import ListNotations.
@@ -15,6 +15,26 @@ Import ListNotations.
 Theorem C11_anb_total : forall a b i0, is_matched a b i0 <> None.
 Proof. exact is_matched_no_panic. Qed.
 Print Assumptions C11_anb_total.
+
+(* 1b. slicing: the word splitter of the `convert` transformation (Delimiter::delimit / conclude, split) never
+       underflows and every byte range it slices the text with is in order, inside the text and on character
+       boundaries — for every text, whatever Unicode says about the case of its characters, and every
+       separator option; and nothing but separator characters is dropped *)
+Theorem C11_split_safe :
+  forall s seps, exists rs,
+    Case.split s seps = Some rs
+    /\ ordered rs 0
+    /\ (forall a b, In (a, b) rs -> b <= byte_len s /\ is_boundary s a /\ is_boundary s b).
+Proof. exact CaseProofs.C11_split_safe. Qed.
+Print Assumptions C11_split_safe.
+
+Theorem C11_split_covers :
+  forall s seps rs, Case.split s seps = Some rs ->
+    (forall c off, In (off, c) (combine (boundaries s 0) s) ->
+       (exists a b, In (a, b) rs /\ a <= off < b) \/ In (cp c) (active_delims seps))
+    /\ (forall a b c, In (a, b) rs -> In c (chars_in s 0 a b) -> ~ In (cp c) (active_delims seps)).
+Proof. exact CaseProofs.C11_split_covers. Qed.
+Print Assumptions C11_split_covers.
 
 (* 2. the loader: the topological sort and the whole acceptance pipeline terminate on every document *)
 Theorem C11_topo_total : forall m, get_order m <> OrderFuel.
